@@ -41,7 +41,10 @@ FLOORS = {
 SHARD_TIMEOUT = {"quick": 600, "thorough": 3000}
 
 PREFIXES = [("# Filter: ", "# Description: "), ("# rule:", "# desc:"), ("#F ", "#D "),
-            ("# Règle : ", "# Déscription : "), ("# 规则：", "# 说明：")]
+            ("# Règle : ", "# Déscription : "), ("# 规则：", "# 说明："),
+            # characters that mean something to re / str.format / %-formatting
+            ("# Filter (webmail): ", "# Description (webmail): "), ("# [rule] ", "# [desc] "),
+            ("# rule+ ", "# desc* "), ("# r.le? ", "# d{0}sc %s ")]
 NAMES = ["rule1", "Rule é", "filter #2", "x: y", "名前", "a-b_c.d", "UPPER lower",
          "n(1)", "50%", "[test]", "a,b", "Filter", "Description", "#hash first", "last hash#",
          "\"q\"", "keep;", "if false {"]
